@@ -365,9 +365,8 @@ def decrypt (P : Prims) (data : Bytes) (composite : Option Bytes) : Outcome Decr
         let (ia, bodyStart) ← innerLoop (payload.length + 1) payload 0 {}
         match ia.cipher, ia.key with
         | some ic, some ik =>
-          -- `Salsa20Cipher::new`: `GenericArray::from_slice(key)` asserts the length
-          if ic = .salsa20 ∧ ik.length ≠ 32 then .err .integrity
-          else .ok ⟨⟨h.minor, h.cipher, h.compression, ic, h.kdf⟩, ia.attachments, ik, payload.drop bodyStart⟩
+          -- `InnerCipherConfig::get_cipher`: Salsa20 is keyed with SHA-256(key), ChaCha20 with SHA-512(key): any key length
+          .ok ⟨⟨h.minor, h.cipher, h.compression, ic, h.kdf⟩, ia.attachments, ik, payload.drop bodyStart⟩
         | _, _ => .err .integrity
 
 /-! ### writing (`dump_kdbx4`) and the family of conforming layouts -/
